@@ -65,6 +65,20 @@ def check_ctor(kind, s):
             return f"Shape({s!r}, size).type is {a.type!r}"
         return None
     exp = [m for m in FrameID if m.value == s or m.value == s.lower()]
+    if kind == "HomogeneousMatrix":
+        from perception_eval.common.transform import HomogeneousMatrix
+        for as_src in (True, False):
+            args = (s, FrameID.MAP) if as_src else (FrameID.MAP, s)
+            try:
+                h = HomogeneousMatrix((1.0, 2.0, 3.0), (1.0, 0.0, 0.0, 0.0), *args)
+            except ValueError:
+                if exp:
+                    return f"HomogeneousMatrix(p, q, {args[0]!r}, {args[1]!r}) raised although {exp[0]!r} is a member"
+                continue
+            got = h.src if as_src else h.dst
+            if not exp or got is not exp[0]:
+                return f"HomogeneousMatrix(p, q, {args[0]!r}, {args[1]!r}) is labelled {got!r}"
+        return None
     try:
         k = TransformKey(s, "map")
     except ValueError:
@@ -93,13 +107,13 @@ def candidates(fname, item, seed):
 
 def search(item, seed):
     fname = item["func"].split(":")[-1]
-    if fname in ("Shape.__init__", "TransformKey.__init__", "TransformKey.__eq__"):
+    if fname in ("Shape.__init__", "TransformKey.__init__", "TransformKey.__eq__", "HomogeneousMatrix.__init__"):
         from perception_eval.common.schema import FrameID
         from perception_eval.common.shape import ShapeType
         cls = ShapeType if fname.startswith("Shape") else FrameID
         cands = [s for _, s in model_strings(item.get("model"))] + [m.value for m in cls] + [m.value.upper() for m in cls]
         for s in cands:
-            why = check_ctor("Shape.__init__" if fname.startswith("Shape") else "TransformKey", s)
+            why = check_ctor("Shape.__init__" if fname.startswith("Shape") else "HomogeneousMatrix" if fname.startswith("Homog") else "TransformKey", s)
             if why:
                 return dict(function=fname, input=s, observed=why)
         return None
@@ -114,7 +128,7 @@ def search(item, seed):
 
 def replay(payload):
     f, s = payload["function"], payload["input"]
-    why = check(f, s) if f in parsers() else check_ctor("Shape.__init__" if f.startswith("Shape") else "TransformKey", s)
+    why = check(f, s) if f in parsers() else check_ctor("Shape.__init__" if f.startswith("Shape") else "HomogeneousMatrix" if f.startswith("Homog") else "TransformKey", s)
     return (why is None, why or "ok")
 
 
